@@ -1,3 +1,28 @@
 import Mdsort.Proofs.World
+
+/-!
+# C04 - the exit status tells the truth (MDA contract, error isolation)
+-/
+
 namespace Mdsort.Props
+open Mdsort Mdsort.Model
+
+/-- The status table: 0/1 from the sticky error flag in maildir mode; with `-`: 75 iff an error
+occurred, else 1 iff a reject was executed, else 0 (constants regenerated from mdsort.c). -/
+theorem C04_status_table (env : PEnv) (orc : EvalOracles) (ok : Bool) (conf : List ConfBlock) (files : Files) (input : Bytes)
+    (w : World) (plan : Plan) :
+    let r := (runPlan plan (mainP env orc ok conf files input) w 0 []).1
+    r.1 = exitStatus env r.2 ∧ Gen.exTempfail = 75 ∧ Gen.exPermfail = 1 :=
+  ⟨Proofs.exit_status_table env orc ok conf files input w plan, by decide, by decide⟩
+
+/-- A rejected or unreadable configuration is an error, and nothing but the configuration file
+is touched. -/
+theorem C04_config_error (env : PEnv) (orc : EvalOracles) (conf : List ConfBlock) (files : Files) (input : Bytes)
+    (w : World) (plan : Plan) :
+    let r := runPlan plan (mainP env orc false conf files input) w 0 []
+    r.1.2.error = true ∧
+    (Proofs.callsOf plan (mainP env orc false conf files input) w = [.fopen env.confpath] ∨
+     ∃ h, Proofs.callsOf plan (mainP env orc false conf files input) w = [.fopen env.confpath, .fclose h]) :=
+  Proofs.bad_config_only_reads_config env orc conf files input w plan
+
 end Mdsort.Props
